@@ -348,6 +348,22 @@ def run(ck):
                 len(body), ("a diagnostic: " + (r.msg or "")[:200]) if not r.ok else "different bytes", where),
                 {"mode": "asm", "arch": "z80", "source": src, "expected": "OK " + want_b.hex()[:64] + "...", "harness_case": c})
             break
+    # ---------------------------------------------------------------- a lazily defined symbol is evaluated afresh at every use
+    lz = []
+    for ex, f in (("cnt * 2 + 1", lambda c: c * 2 + 1), ("( cnt << 4 ) | 3", lambda c: (c << 4) | 3), ("cnt ? cnt - 1 : 9", lambda c: c - 1 if c else 9), ("- cnt", lambda c: -c)):
+        for how in ("@redefl cnt, %d", "@redefn cnt, %d", "@undef cnt\n@defn cnt, %d"):
+            for c1, c2 in ((3, 10), (0, 1), (0x1234, 0)):
+                src = "@defl tot, %s\n@defl cnt, %d\n@dw tot & $ffff\n%s\n@dw tot & $ffff\n@dw tot2 & $ffff\n@defl tot2, tot + 1\n" % (ex, c1, how % c2)
+                want = b"".join(((v) & 0xFFFF).to_bytes(2, "little") for v in (f(c1), f(c2), f(c2) + 1))
+                lz.append((src, want))
+    lres = [AsmResult(r) for r in run_cases(harness, [asm_case("z80", text=t) for t, _ in lz])]
+    ck.evaluations += len(lz)
+    for (src, want), a in zip(lz, lres):
+        ck.nontriv("Z" + src)
+        if not a.ok or a.bytes != want:
+            ck.violation("a symbol defined before its operand exists, used, and used again after the operand was replaced: %s, expected OK %s: %r" % (a.canon(), want.hex(), src),
+                         {"mode": "asm", "arch": "z80", "source": src, "expected": "OK " + want.hex(), "harness_case": asm_case("z80", text=src)})
+            break
     # ---------------------------------------------------------------- chained conditionals
     # C's ?: is right-associative and its middle operand is a full expression: a ? b : c ? d : e and a ? b ? c : d : e
     # are legal C.  The assembler may refuse an unparenthesised chain with a diagnostic, but if it accepts one the value
